@@ -193,11 +193,11 @@ func programs() []*Program {
 	all := []string{"A", "B", "C", "D"}
 	clean := []string{"A", "B", "D"}
 	return []*Program{
-		{Name: "histo-count", Cmd: "histogram", Kind: "counter", Flags: []string{"-n", "1000"}, Match: lineRegex,
+		{Name: "histo-count", Cmd: "histogram", Kind: "counter", Flags: []string{"-n", "50"}, Match: lineRegex,
 			Extract: [][]part{tpl(g(1))}, Corpora: all, HasCSV: true},
-		{Name: "histo-inc", Cmd: "histogram", Kind: "counter", Flags: []string{"-n", "1000", "-x"}, Match: lineRegex,
+		{Name: "histo-inc", Cmd: "histogram", Kind: "counter", Flags: []string{"-n", "50", "-x"}, Match: lineRegex,
 			Extract: [][]part{tpl(g(1)), tpl(g(3))}, Corpora: all, HasCSV: true},
-		{Name: "histo-ignore", Cmd: "histogram", Kind: "counter", Flags: []string{"-n", "1000"}, Match: lineRegex,
+		{Name: "histo-ignore", Cmd: "histogram", Kind: "counter", Flags: []string{"-n", "50"}, Match: lineRegex,
 			Extract: [][]part{tpl(g(1), lit(" / "), g(2))}, IgnGroup: 2, IgnEq: "r2", Corpora: all, HasCSV: true},
 		{Name: "table-inc", Cmd: "table", Kind: "table", Match: lineRegex,
 			Extract: [][]part{tpl(g(1)), tpl(g(2)), tpl(g(3))}, Corpora: all, HasCSV: true},
@@ -253,12 +253,12 @@ func (p *Program) args() []string {
 
 var recordPool = []string{
 	0: "a,x|r 1|1",
-	1: `b "q"|r2|2`,
+	1: ` b "q"|r2|2`, // leading space and quotes
 	2: "a,x|r2|40",
 	3: " lead|r 1|-3",
 	4: "c\rd|7|5",
 	5: "a,x|r 1|2",
-	6: `b "q"|10|1`,
+	6: ` b "q"|10|1`,
 	7: "plain|7|x", // unparsable increment / number
 	8: "no match here",
 	9: "nor, \"here\"",
